@@ -52,6 +52,13 @@ EXPLANATION = (
     "copy. Rounding distances, dtype widths at boundaries, the Ensembl "
     "pattern and placeholder uniqueness are not decided.")
 
+EXPLANATION += (
+    ' Added after the seeded rounds: scanning loops tile their matrix '
+    'exactly (R-TILE, incl. axis agreement of step and bound); gene '
+    'identifiers are looked up as given, suffix clipping applies to the '
+    'result.'
+)
+
 RULE_TEXT = (
     "one obligation per effect root, per mutating helper call, per "
     "rejection point, per log conditional, per layer argument, per uns "
